@@ -221,7 +221,7 @@ def handle : List String → String
   | "canon" :: ts => withGeo ts fun g => "ok " ++ unwords (dumpGeo (canonGeo g) ++ dumpNames (canonGeo g))
   | "wf" :: ts => withGeo ts fun g =>
     let b (x : Bool) : String := if x then "1" else "0"
-    "ok " ++ b (WF g) ++ " " ++ b (LayerCentresKept g) ++ " " ++ b (StableSurfaces g) ++ " " ++ b (SizesStable g)
+    "ok " ++ b (WF g) ++ " " ++ b (LayerCentresKept g) ++ " " ++ b (StableSurfaces g) ++ " " ++ b (SizesStable g) ++ " " ++ b (Consistent g) ++ " " ++ b (SurfaceClear g)
   | _ => "bad-op"
 
 def main : IO Unit := serve handle
